@@ -3,21 +3,21 @@ CLAIMED = {
  "C02": {
   "level": "exploration",
   "technique": SIM + "seeded generator/loop schedules (cancellation, exhaustion, recycling, padding), event log in execution order compared with a coroutine reference model",
-  "text": "Seeded search over sessions whose generators and loop bodies log their own execution order; nesting, zip, cancellation by return, failures inside generators, composition to depth 3, recycled contexts, loop-holding functions under 0..300 padded frames. The real event log, loop value and error class must equal those of the definitional reference model for every statement. Sampling, not proof; bounds in DESIGN.md 6.C02.",
+  "text": "Seeded search over sessions whose generators and loop bodies log their own execution order; nesting, zip, cancellation by return, failures inside generators, composition to depth 3, recycled contexts, loop-holding functions under 0..300 padded frames, generators reading globals the loop body changes between resumptions, factory-made generators consumed one after another in one statement, functions with 9..17 live iterator contexts, call-free iterator expressions, yields with no loop waiting for them. The real event log, loop value and error class must equal those of the definitional reference model for every statement. Sampling, not proof; bounds in DESIGN.md 6.C02.",
   "ref": "6.C02",
   "note": "Trusted base: the real parser (shared by both sides), the reference model written from Readme.md, the harness. Programs avoid the corners the Readme leaves undefined (DESIGN.md 5.3).",
  },
  "C03": {
   "level": "exploration",
   "technique": SIM + "metamorphic placement of one pure call across session histories, call depths, frame-width padding, loop/generator contexts and after failures; real-vs-real equality",
-  "text": "The same side-effect-free call is evaluated in up to 10 placements of one session (top level, twice per statement, under d padded frames, in loop bodies, as a yielded value, after deep recursion, wide calls, loops, failed statements and injected aborts); probe functions include ones whose locals are assigned only on paths not taken (they must read as nil wherever the frame lands); all renderings must be equal. Needs no model. Sampling, not proof.",
+  "text": "The same side-effect-free call is evaluated in up to 10 placements of one session (top level, twice per statement, under d padded frames, in loop bodies, as a yielded value, after deep recursion, wide calls, loops, failed statements and injected aborts); probe functions include ones whose locals are assigned only on paths not taken (they must read as nil wherever the frame lands), makers of closures (plain, yielded by a generator, looping over a captured variable) with loops and calls placed between creating a closure and calling it, and an offset sweep that calls the probe at every stack offset 4..299 in a fresh session; all renderings must be equal. Needs no model. Sampling, not proof.",
   "ref": "6.C03",
   "note": "Generated functions never reassign a captured variable after capture (known finding K3) and never return closures inside arrays (known finding K4); those two shapes are recorded in known_findings.jsonl and replayed on every run.",
  },
  "C08": {
   "level": "exploration",
   "technique": SIM + "crash/recovery: fault sequences (parse errors, runtime errors of every class at depth / in loops / in generators, injected aborts) with a failure-free twin session as oracle",
-  "text": "Twin sessions over one generated history: A sees failing statements (unparsable text, runtime errors at top level, at call depth d, in loop iteration k, inside generators and generators of generators, aborts injected at the k-th fallible instruction), B sees only their completed global prefix. Every later statement must agree in value, output and error class, and the machine must be at rest after every failure. Completed prefixes also bind functions, generators and arrays that later probe statements use after new code has been compiled. One run in three replays the history through the real node.Loop + FReader + processInput on a real file, with the failing statements and with their completed prefixes; every non-failing step must print the same in both streams and no step may be lost. Runs that kill or stall their process are re-executed alone in a child process and reported (fatal-crash / hang). Sampling, not proof.",
+  "text": "Twin sessions over one generated history: A sees failing statements (unparsable text, runtime errors at top level, at call depth d, in loop iteration k, inside generators and generators of generators, aborts injected at the k-th fallible instruction), B sees only their completed global prefix. Every later statement must agree in value, output and error class, and the machine must be at rest after every failure. Completed prefixes also bind functions, generators and arrays that later probe statements use after new code has been compiled. One run in three replays the history through the real node.Loop + FReader + processInput on a real file, with the failing statements and with their completed prefixes; every non-failing step must print the same in both streams and no step may be lost. Failing statements also write before they fail (nothing may follow the report) and may be a well-formed statement followed by a syntax error on the same line (none of it may take effect); one stream in twelve also goes through the cmd/calc REPL; a parse canary checks that the parser's outcome on fixed statements never depends on what the process parsed before. Runs that kill or stall their process are re-executed alone in a child process and reported (fatal-crash / hang). Sampling, not proof.",
   "ref": "6.C08",
   "note": "Error reports are cut from compared output (they quote instruction indices that legitimately differ; C19 checks them). Injected aborts only at opcodes that can fail from operand data.",
  },
@@ -31,21 +31,21 @@ CLAIMED = {
  "C13": {
   "level": "exploration",
   "technique": SIM + "operation histories on the real TLexer against a fresh-scan model; real combinators over a simulated call-recording lexer with injected lexer errors and premature end of input, against an ordered-choice reference recogniser",
-  "text": "Part A: random legal interleavings of Next/Snapshot/Rollback/Commit on the real transactional lexer (inputs include rejected characters so cached error entries are replayed) compared after every operation with a fresh scan. Part B: random parsers built from all 13 combinators run over a simulated RollbackLexer that records every call and injects lexer errors / early end of tokens; outcome and final position must equal the reference recogniser's, snapshots must be closed exactly once in LIFO order; B2 runs the same parser over the real TLexer and the simulated lexer and requires identical call traces. Sampling, not proof.",
+  "text": "Part A: random legal interleavings of Next/Snapshot/Rollback/Commit on the real transactional lexer (inputs include rejected characters so cached error entries are replayed) compared after every operation with a fresh scan. Part B: random parsers built from all 13 combinators run over a simulated RollbackLexer that records every call and injects lexer errors / early end of tokens; outcome and final position must equal the reference recogniser's, snapshots must be closed exactly once in LIFO order; B2 runs the same parser over the real TLexer and the simulated lexer and requires identical call traces. Sampling, not proof. Part A also runs long histories (600..1400 lexemes, bursts of 256 Next calls) so that the replay cache holds thousands of entries. Part C: every 4096th run the real grammar parses fixed statements full of failing alternatives; the outcome must equal the outcome at process start.",
   "ref": "6.C13",
   "note": "The fresh non-transactional scan is trusted (C14's business). Choose ends with an Ok() gate and repetition gates consume, as the package documents. The grammar in parser.go is not re-run on the simulated lexer.",
  },
  "C17": {
   "level": "exploration",
   "technique": SIM + "stdin delivery schedules (chunking, EOF position, transient errors) behind a stream seam, plus the built binary on file and pipe stdin; built-in contracts against the reference model",
-  "text": "read(): the simulator owns the byte source and delivers L1..Ln under seeded chunk schedules (cuts inside lines, many lines per chunk, 1-byte chunks, lines and chunks >= 4096 bytes, unterminated tail, transient error at a line boundary) while reads are issued from top level, nested calls, loop bodies, generators and zips; the i-th read must return Li, exhaustion must be a runtime error. 1 run in 40 repeats through cmd/calc with file and pipe stdin. The pure clauses (toa/write, aton round trip routed through stdin, fromto/elems/indices, wrong argument types/counts) are asserted against the model: that part is ordinary assertion, not schedule search.",
+  "text": "read(): the simulator owns the byte source and delivers L1..Ln under seeded chunk schedules (cuts inside lines, many lines per chunk, 1-byte chunks, lines and chunks >= 4096 bytes, unterminated tail, transient error at a line boundary) while reads are issued from top level, nested calls, loop bodies, generators and zips; the i-th read must return Li, exhaustion must be a runtime error. 1 run in 40 repeats through cmd/calc with file and pipe stdin. The pure clauses (toa/write, aton round trip routed through stdin, fromto/elems/indices, wrong argument types/counts) are asserted against the model: that part is ordinary assertion, not schedule search. Programs also rebind built-in names (the other built-ins must not care), statements fail with unrelated runtime errors between reads (unread lines must survive), and the binary variant ends one run in four with write-then-exit(code).",
   "ref": "6.C17",
   "note": "Both newline conventions of read() are accepted (the Readme is silent). I/O errors are injected at line boundaries only.",
  },
  "C18": {
   "level": "exploration",
   "technique": SIM + "interleaved memory-operation histories over parent, forked and recycled memories against a model, allocation boundaries crossed by drawn widths/depths; wide-frame/deep-recursion programs with closed-form results",
-  "text": "Part A drives the real memory package through the VM's call/return/fork/recycle protocol with widths, depths and scratch heights drawn around every allocation boundary, comparing every value read with a trivial model. Part B runs calc functions with up to 300 locals whose middle section grows the stack, forks into recycled contexts, nests wide calls and resumes generators, then returns all locals (closed form), and recursion to 20000/100000 frames. Sampling, not proof.",
+  "text": "Part A drives the real memory package through the VM's call/return/fork/recycle protocol with widths, depths and scratch heights drawn around every allocation boundary, comparing every value read with a trivial model. Part B runs calc functions with up to 300 locals whose middle section grows the stack, forks into recycled contexts, nests wide calls and resumes generators, then returns all locals (closed form), and recursion to 20000/100000 frames. Sampling, not proof. Part C (1 run in 16): escaping closures (yielded by a generator and returned or kept, returned by makers, closures of closures, created in loop bodies, looping over captured bounds, locals reaching an iterator only through function literals, multi-variable loops whose variables partly exist) with other loops, recursion and wide calls reusing stack and contexts in between; closed-form results.",
   "ref": "6.C18",
   "note": "Part A replaces the VM by the harness issuing the memory calls the VM would issue; legality restrictions are listed in the evidence assumptions (e.g. children destroyed before the forking frame returns, as RCONT/DCONT do).",
  },
@@ -55,28 +55,28 @@ CLAIMED.update({
  "C10": {
   "level": "exploration",
   "technique": SIM + "operation histories over values that share backing arrays (allocator state built by the preceding history), immutability invariant over all globals and data-segment constants after every step",
-  "text": "Seeded histories of 5..40 array/string operations (slices of slices, concatenation onto slices with spare capacity, array literals with computed elements evaluated repeatedly, literal-bodied functions, arrays captured by closures and iterated by generators while the body concatenates, index errors in between); after every statement every untouched global and every data-segment constant must render exactly as before. Weakest fit of the claimed set (DESIGN.md 6.C10): the dimension explored is aliasing state accumulated by the history. Sampling, not proof.",
+  "text": "Seeded histories of 5..40 array/string operations (slices of slices, concatenation onto slices with spare capacity, array literals with computed elements evaluated repeatedly, literal-bodied functions, arrays captured by closures and iterated by generators while the body concatenates, index errors in between); after every statement every untouched global and every data-segment constant must render exactly as before. Weakest fit of the claimed set (DESIGN.md 6.C10): the dimension explored is aliasing state accumulated by the history. Sampling, not proof. Renderings are kept as strings too (toa of live arrays, slices and joins of them, writes in between) and must not change later.",
   "ref": "6.C10",
   "note": "Globals are read through the exported memory API and rendered with value.String (the rendering toa uses). Mutation reachable only through unnamed values is out of reach.",
  },
  "C15": {
   "level": "fault_enumeration",
   "technique": SIM + "capacity exhaustion as the injected fault: data segment filled to each side of the 2^15 and 2^16 boundaries before ordinary statements (table enumerated completely), large-body programs, static operand-decode check plus unfilled twin session",
-  "text": "Only the size-limit clause is claimed. The data segment is filled to B+delta (B in {2^15,2^16}, delta -14..+3) before each of 14 statement kinds in both flavours (1008 cases, enumerated completely in both tiers) plus functions with 2^15+-2 locals, large bodies, and a jump-distance table (14 templates whose statement is made exactly limit+d instructions long, limit in {2^15-1, 2^16-1}, d in -3..+9, closed-form expected values; enumerated completely in thorough, 9 pairs per template in quick); seeded runs place the fill inside generated sessions. A statement must be refused at compile time or decode to in-range operands and behave exactly like the unfilled twin.",
+  "text": "Only the size-limit clause is claimed. The data segment is filled to B+delta (B in {2^15,2^16}, delta -14..+3) before each of 14 statement kinds in both flavours (1008 cases, enumerated completely in both tiers) plus functions with 2^15+-2 locals, large bodies, and a jump-distance table (14 templates whose statement is made exactly limit+d instructions long, limit in {2^15-1, 2^16-1}, d in -3..+9, closed-form expected values; enumerated completely in thorough, 9 pairs per template in quick), 14 refusal cases through the real node.Loop (nothing of a refused statement may execute; what follows must behave as in a fresh session) and 4 late-definition cases beyond instruction 2^16; seeded runs place the fill inside generated sessions. A statement must be refused at compile time or decode to in-range operands and behave exactly like the unfilled twin.",
   "ref": "6.C15",
   "note": "A compile-time panic counts as refusal. The fill appends nil entries to the DS slice the caller owns (what a long session does). The encode/decode round trip over all opcode x kind x address is a pure function and is not claimed.",
  },
  "C16": {
   "level": "exploration",
   "technique": SIM + "stream framing faults (line layout, comments/strings holding brackets and quotes, blank lines, long lines, missing final newline) against the built binary in file, REPL and -eval mode and the real Loop/FReader in process; statement-by-statement twin session as oracle",
-  "text": "A list of statements with known texts is laid out into a stream by the tape and executed by the real node.Loop+FReader in process and by the built cmd/calc in file mode, REPL mode (stdin from a regular file) and -eval; outputs must equal what the statements print when given one at a time to a twin session. A mode that does not terminate within a generous watchdog (confirmed by a second, longer run) is a violation.",
+  "text": "A list of statements with known texts is laid out into a stream by the tape and executed by the real node.Loop+FReader in process and by the built cmd/calc in file mode, REPL mode (stdin from a regular file) and -eval; outputs must equal what the statements print when given one at a time to a twin session. A mode that does not terminate within a generous watchdog (confirmed by a second, longer run) is a violation. Streams also hold multi-line strings with blank and comment-looking interior lines, string-valued statements (the REPL echo must be the value's characters between quotes), statements that end in a runtime error (reports compared as markers; the session goes on in every mode), several statements on one physical line, re-reads of globals bound and echoed earlier, calls of functions bound inside earlier compound statements, and programs that end themselves with exit(code): status and output must agree in all three modes.",
   "ref": "6.C16",
-  "note": "No failing statements here (C08). Comments are kept off the last line of REPL statements / -eval text / newline-less streams (lexer spin, C06, unclaimed). Strings hold valid UTF-8 only (readline decodes runes). Interactive terminal editing is out of reach.",
+  "note": "Failing statements bind nothing here (C08 covers recovery). Comments are kept off the last line of REPL statements / -eval text / newline-less streams (lexer spin, C06, unclaimed). Strings hold valid UTF-8 only (readline decodes runes). Interactive terminal editing is out of reach.",
  },
  "C19": {
   "level": "fault_enumeration",
   "technique": SIM + "fault sites enumerated (error class x site x run-time choice by simulated stdin x flavour) plus seeded generated sessions; captured report parsed and compared with the reference model's failing operation, operands and per-coroutine call stacks",
-  "text": "Every error class at every site kind (top level, call depth 1..6, parameters holding functions, closures, reassigned parameters, loop bodies, generators, generators of generators, zip members, built-ins, and the same sites after other loops of the same statement have come and gone: recycled contexts, abandoned loops, deep recursion, wide frames), with the failing dynamic point fixed in the text or chosen at run time by stdin, in both flavours: the table is run completely in both tiers; seeded runs add generated sessions. The report's class, marked instruction (must be the last instruction dispatched), opcode family, operand values and the frames of the failing context and all its ancestors must match the model.",
+  "text": "Every error class at every site kind (top level, call depth 1..6, parameters holding functions, closures, reassigned parameters, loop bodies, generators, generators of generators, zip members, built-ins, and the same sites after other loops of the same statement have come and gone: recycled contexts, abandoned loops, deep recursion, wide frames), with the failing dynamic point fixed in the text or chosen at run time by stdin, in both flavours: the table is run completely in both tiers; seeded runs add generated sessions. The report's class, marked instruction (must be the last instruction dispatched), opcode family, operand values and the frames of the failing context and all its ancestors must match the model. The listing around the marked instruction is checked too: consecutive indices containing the failing instruction, the printed words equal the code segment, every line reads as the opcode, operand kinds and addresses the VM's own decoders return. Printed values are matched against full renderings (any truncation length); parameters hold percent signs and multi-byte characters; sites include top-level generators in recycled contexts failing before their first yield and failures beneath calls in loop conditions.",
   "ref": "6.C19",
   "note": "Temp-register opcodes print only the operands they fetch (printed operands must be a suffix of the model's). Crash shapes that never reach a report (DESIGN.md 5.3) are out of reach.",
  },
